@@ -48,7 +48,7 @@ class Clause:
 
 class FnC:
     def __init__(self, requires=(), ensures=(), ret=None, attrs=(), stmts=None, loops=None, iters=None,
-                 external_body=False, extra_spec='', props=(), kani=(), note='', impl_args=None, inherits=False):
+                 external_body=False, extra_spec='', props=(), kani=(), note='', impl_args=None, inherits=False, closures=None):
         self.requires = list(requires)
         self.ensures = [c if isinstance(c, Clause) else Clause(*c) for c in ensures]
         self.ret = ret
@@ -56,6 +56,10 @@ class FnC:
         self.stmts = dict(stmts or {})
         self.loops = dict(loops or {})
         self.iters = dict(iters or {})
+        # closures: {k: 'spec'} -- the k-th closure expression of the body (pre-order) gets `spec {` after its parameter
+        # list and `}` after its body, e.g. '-> (rc: T) requires P ensures Q' (Verus reads closure contracts only from
+        # such annotations)
+        self.closures = dict(closures or {})
         self.external_body = external_body
         # an external_body function of the REPO whose text differs from the recorded outside-the-subset text
         # (contracts/outside_subset.json) is given to the verifier with its body: a rewrite INTO the subset is
@@ -304,6 +308,19 @@ def transform(toks, it, hoist_names=None, hoist_suffix=None, is_member=False, re
                         out.append(mk('punct' if tx in '()' else 'ident', tx, ' ' if tx == 'assert' else ''))
                 res.dropped.append(('rewrite', '%s!(..) -> let-bound operands + Verus assert (proof obligation)' % t.text))
                 j = k + 1
+                continue
+            if t.text == '|' and toks[j - 1].text in ('(', ',') and j + 2 < hi and toks[j + 1].kind == 'ident' \
+                    and toks[j + 1].text[:1].isupper() and toks[j + 2].text == '|':
+                # `|UnitStruct| expr`: a closure whose parameter is a unit-struct PATTERN (this Verus accepts only
+                # variables as closure parameters) -> `|_pat: UnitStruct| expr`
+                emit(t)
+                out.append(mk('ident', '_pat', ''))
+                out.append(mk('punct', ':', ''))
+                out.append(clone_tok(toks[j + 1], None))
+                out[-1].ws = ' '
+                emit(toks[j + 2])
+                res.dropped.append(('rewrite', 'closure parameter pattern `|%s|` -> `|_pat: %s|`' % (toks[j + 1].text, toks[j + 1].text)))
+                j += 3
                 continue
             if t.kind == 'ident' and t.text in RENAMES and j > 0 and toks[j - 1].text in ('.', '::'):
                 res.renamed[t.text] = res.renamed.get(t.text, 0) + 1
@@ -671,6 +688,14 @@ def splice_fn(em, toks, fn, fc, ctx, marks):
                     if k >= len(loops) or loops[k]['in'] is None:
                         raise InfraError('fn %s: for-loop %d not found' % (fn.name, k))
                     ins(loops[k]['in'] + 1, ' ' + name + ':')
+    if fc is not None and fn.body and not fc.external_body and getattr(fc, 'closures', None):
+        cl = find_closures(toks, fn.body[0] + 1, fn.body[1])
+        for k, spec in fc.closures.items():
+            if k >= len(cl):
+                raise InfraError('fn %s: closure %d not found (%d closures)' % (fn.name, k, len(cl)))
+            (p_open, p_close, end) = cl[k]
+            ins(p_close + 1, ' ' + spec.strip() + ' {')
+            ins(end, ' }', front=True)
     dropped = None
     if ctx in DEMOTED and fn.body and fn.body[1] > fn.body[0] + 1:
         # the front end rejects this function's current text: its body is not shown to the verifier at all (rustc would
@@ -686,6 +711,32 @@ def splice_fn(em, toks, fn, fc, ctx, marks):
                 em.add(text)
         em.tok(toks[q])
     return dropped
+
+
+def find_closures(toks, lo, hi):
+    """closure expressions in toks[lo:hi], pre-order: (index of opening `|`, index of closing `|`, index of the token
+    that ends the closure expression).  Only closures in argument position `(|..| body)` / `, |..| body` are found."""
+    out = []
+    j = lo
+    while j < hi:
+        t = toks[j]
+        if t.kind == 'punct' and t.text == '|' and toks[j - 1].text in ('(', ','):
+            k = j + 1
+            while k < hi and toks[k].text != '|':
+                k += 1
+            e = k + 1
+            while e < hi:
+                u = toks[e]
+                if u.kind == 'punct' and u.text in ('(', '[', '{'):
+                    e = match_close(toks, e)
+                elif u.kind == 'punct' and u.text in (',', ')', ';'):
+                    break
+                e += 1
+            out.append((j, k, e))
+            j = k + 1
+            continue
+        j += 1
+    return out
 
 
 def body_hash(toks, fn):
